@@ -92,10 +92,21 @@ class World:
         if z3.is_bv(v) and v.size() == 256:
             return v
         if isinstance(v, Obj):
-            if v.discr in ('Borrowed', 'Owned'):       # Cow
+            if isinstance(v.discr, str) and v.discr in ('Borrowed', 'Owned'):       # Cow
                 return self.asset(st, v.fields[(v.discr, 0)])
-            if v.discr == 'IbcPrefixed':
-                return self.asset(st, ex.read(st, ('field', v, ('IbcPrefixed', 0, 'IbcPrefixed'))))
+            head = type_head(v.ty).split('::')[-1]
+            if head == 'Denom' or (isinstance(v.discr, str) and v.discr in ('IbcPrefixed', 'TracePrefixed')):
+                ibc = lambda: self.asset(st, ex.read(st, ('field', v, ('IbcPrefixed', 0, 'astria_core::primitive::v1::asset::IbcPrefixed'))))
+                trace = lambda: self.asset(st, ex.read(st, ('field', v, ('TracePrefixed', 0, 'astria_core::primitive::v1::asset::TracePrefixed'))))
+                if v.discr == 'IbcPrefixed' if isinstance(v.discr, str) else False:
+                    return ibc()
+                if v.discr == 'TracePrefixed' if isinstance(v.discr, str) else False:
+                    return trace()
+                d = ex.discr_value(st, v)
+                i = ex.adts.variant_index('astria_core::primitive::v1::asset::Denom', 'IbcPrefixed')
+                if i is None:
+                    raise MirError('Denom not in ADT table')
+                return z3.If(d == z3.BitVecVal(i, 64), ibc(), trace())
             if 'asset_id' not in v.attrs:
                 v.attrs['asset_id'] = z3.BitVec(f'assetid_{v.lz}', 256)
             return v.attrs['asset_id']
@@ -371,6 +382,16 @@ class World:
 
     def m_has_ibc_asset(self, ctx, a, comp):
         return self.getter(ctx, a, 'has_ibc_asset', ctx.args[1:2], lambda v, p: ok(v))
+
+    def m_map_ibc_to_trace_prefixed_asset(self, ctx, a, comp):
+        st = ctx.st
+        aid = self.asset(st, ctx.args[1])
+
+        def alts(ex, s2, fut):
+            known, _ = self.get(s2, 'has_ibc_asset', aid)
+            t = Obj('astria_core::primitive::v1::asset::TracePrefixed'); t.attrs['asset_id'] = aid
+            return [(None, ok(self.opt_obj('Option<TracePrefixed>', t, known)))]
+        return self.fut(ctx, a, alts)
 
     def m_put_ibc_asset(self, ctx, a, comp):
         return self.putter(ctx, 'has_ibc_asset', ctx.args[1:2], z3.BoolVal(True))
